@@ -4,7 +4,8 @@ import os, re
 
 LEVEL = 'proof'
 CLAIMED = True
-RULE = ('correspondence (extracted model vs real library, both recording targets): c14_ds = MonoTextStyle::draw_string + measure_string on SYNTHETIC '
+RULE = ('every style used by the text suites (C14, C15, C02 text, C07 text) is built by assigning the public fields AND through the whole public API - builder setters with font() first and font() last, underline/strikethrough(_with_color), reset_*, From<&MonoTextStyle>, Default, MonoTextStyle::new, the four CharacterStyle setters - which must give the identical style; the suites draw with the API-built one. Synthetic fonts are drawn twice: with the StrGlyphMapping and with a closure glyph mapping. TextRenderer::draw_whitespace (widths 0, n cells, odd) is compared with its reference (background rectangle, decorations over the width, returned position) and with draw_string of n spaces where the space glyph is blank. '
+        'correspondence (extracted model vs real library, both recording targets): c14_ds = MonoTextStyle::draw_string + measure_string on SYNTHETIC '
         'MonoFont records (atlas of any row length incl. not a multiple of / smaller than the cell width, zero cell, spacing 0..3, arbitrary '
         'baseline and decoration dimensions, StrGlyphMapping with NUL ranges, empty/incomplete/surrogate-spanning ranges, replacement index inside or '
         'outside the atlas, up to the edge of index_ok near 2^31/ch and 2^32) x all 4x3x3 colour/decoration roles x 4 baselines x strings of mapped, unmapped, control and non-BMP characters x small and '
